@@ -3,6 +3,7 @@ import BSModel.Proofs.Html5
 import BSModel.Proofs.Html5Fix
 import BSModel.Proofs.EntitiesPopulate
 import BSModel.Gen.EntitiesSource
+import BSModel.Model.EntitiesGlue
 import BSModel.Gen.Entities
 import BSModel.Gen.EntitiesFormatters
 /-! # C09 — entity substitution and attribute quoting are reversible for every string
@@ -400,5 +401,54 @@ theorem formatter_attr_roundtrip (X : List (Nat × PStr)) (T : Tbl) (hx : XmlOK 
   · exact html5_attr_roundtrip T h h5 s
 
 example : ∃ e ∈ BS.Gen.C09.htmlRegistry, e.fn = 3 ∧ ofS "textarea" ∉ e.cdata := by decide
+
+/-! ## from `decode(formatter=…)` to the substitution (`format_string`, `formatter_for_name`, `_format_tag`) -/
+
+/-- Whatever way the formatter is named — a `Formatter` object, a registry key, a function — a string under a parent that is
+    not one of the resulting formatter's `cdata_containing_tags` is written so that it reads back as the original, provided
+    the function is one of the three substitutions. -/
+theorem formatString_text_roundtrip (X : List (Nat × PStr)) (T : Tbl) (hx : XmlOK X T = true) (h : TblOK T = true)
+    (h5 : Html5FixOK T = true) (hreg xreg : List RegEntry) (d : List PStr) (isXml : Bool) (arg : FormatterArg)
+    (e : RegEntry) (hf : formatterForName hreg xreg d isXml arg = some e) (he : e.fn = 1 ∨ e.fn = 2 ∨ e.fn = 3)
+    (p : Option PStr) (hp : ∀ t, p = some t → t ∉ e.cdata) (late : Bool) (s : PStr) :
+    (formatString T X hreg xreg d isXml arg p s).map (readText T late 0) = some s := by
+  simp only [formatString, hf, Option.map_some]
+  rw [formatter_text_roundtrip X T hx h h5 e he p hp late s]
+
+/-- A function passed as `formatter` gets the default options of its class: `script`/`style` exempt in an HTML tree,
+    nothing exempt in an XML tree. -/
+theorem formatterForName_callable (hreg xreg : List RegEntry) (d : List PStr) (isXml : Bool) (fn : Nat) :
+    ∃ e, formatterForName hreg xreg d isXml (.callable fn) = some e ∧ e.fn = fn ∧
+      e.cdata = if isXml then [] else d := by
+  refine ⟨_, rfl, rfl, ?_⟩
+  cases isXml <;> rfl
+
+/-- The shipped registries: every named formatter is one of the three substitutions, with the documented exemptions. -/
+theorem named_formatters_live :
+    ([ofS "minimal", ofS "html", ofS "html5", ofS "html5-4.12"].all fun nm =>
+      (findFormatter BS.Gen.C09.htmlRegistry true nm).any fun e =>
+        (e.fn == 1 || e.fn == 2 || e.fn == 3) && e.cdata == [ofS "script", ofS "style"]) = true ∧
+    ([ofS "minimal", ofS "html"].all fun nm =>
+      (findFormatter BS.Gen.C09.xmlRegistry true nm).any fun e => (e.fn == 1 || e.fn == 2) && e.cdata == []) = true := by
+  decide
+
+example : (formatString BS.Gen.C09.htmlTable BS.Gen.C09.xmlTable BS.Gen.C09.htmlRegistry BS.Gen.C09.xmlRegistry
+    BS.Gen.C09.htmlDefaultCdata true (.key true (ofS "minimal")) (some (ofS "script")) (ofS "a<b")) = some (ofS "a&lt;b") := by
+  decide +kernel
+
+/-- `key="value"`: a list-valued attribute is joined with single spaces, substituted, quoted; what is read back from the quoted
+    part is the joined value. `None` renders the bare key. -/
+theorem formatAttribute_roundtrip (X : List (Nat × PStr)) (T : Tbl) (hx : XmlOK X T = true) (h : TblOK T = true)
+    (h5 : Html5FixOK T = true) (e : RegEntry) (he : e.fn = 1 ∨ e.fn = 2 ∨ e.fn = 3) (key : PStr) (v : AttrVal) :
+    match v.text with
+    | none => formatAttribute T X e key v = key
+    | some s => ∃ q, formatAttribute T X e key v = key ++ 61 :: q ∧ readAttr T q = some s := by
+  cases hv : v.text with
+  | none => simp [formatAttribute, hv]
+  | some s =>
+    simp only
+    exact ⟨_, by simp [formatAttribute, hv], formatter_attr_roundtrip X T hx h h5 e he s⟩
+
+example : (AttrVal.list [ofS "a", ofS "b c"]).text = some (ofS "a b c") := by decide
 
 end BS.Props.C09
